@@ -15,6 +15,7 @@ from .oracle_ins import store_facts, result_facts_ins, criteria_facts
 class INSObserver(StandardObserver):
     def __init__(self, em: Emitter, model, kill_at_eval=None):
         super().__init__(em, model, kill_at_eval=kill_at_eval)
+        self.trace_stores = False  # emit one event per OrderedSamples call (C04)
         self.user_stop = None     # the user's (criteria, tolerances, any/all), from the run configuration
         self.last_train_n = None
         self.last_threshold = None
@@ -178,6 +179,60 @@ class INSObserver(StandardObserver):
 
         INS.finalise = finalise
 
+        # --- the two OrderedSamples stores, call by call (C04 code -> spec)
+        from nessai.samplers.importancesampler import OrderedSamples
+
+        def store_name(os_):
+            ns = obs.ns
+            if ns is None:
+                return None
+            if os_ is ns.training_samples:
+                return "tr"
+            if os_ is ns.iid_samples:
+                return "iid"
+            return None
+
+        def os_ids(samples):
+            names = list(obs.model.names) + ["logP", "logL", "it", "logU"]
+            cols = np.empty((samples.size, len(names)))
+            for j, nme in enumerate(names):
+                cols[:, j] = samples[nme]
+            return [hash(cols[i].tobytes()) & 0x3FFFFFFFFFFFFFFF for i in range(samples.size)]
+
+        def os_event(os_, op, batch=None, t=None, ret=None):
+            name = store_name(os_)
+            if name is None or not obs.trace_stores:
+                return
+            smp = os_.samples
+            live = os_.live_points_indices
+            obs.em.emit("os", store=name, op=op,
+                        b=[] if batch is None else [float(x) for x in np.sort(batch["logL"])],
+                        t=None if t is None else float(t),
+                        logL=[float(x) for x in smp["logL"]], ids=os_ids(smp),
+                        rows=-1 if os_.log_q is None else int(os_.log_q.shape[0]),
+                        live=None if live is None else [int(i) for i in live],
+                        nested=[int(i) for i in os_.nested_samples_indices],
+                        thr=None if os_.log_likelihood_threshold is None else float(os_.log_likelihood_threshold),
+                        ret=None if ret is None else int(ret),
+                        strict=bool(os_.strict_threshold), replace_all=bool(os_.replace_all))
+
+        def wrap_os(method, op, has_batch=False, has_t=False, is_remove=False):
+            orig = getattr(OrderedSamples, method)
+
+            def wrapper(os_, *a, **k):
+                r = orig(os_, *a, **k)
+                os_event(os_, op, batch=a[0] if has_batch else None, t=a[0] if has_t else None,
+                         ret=r if is_remove else None)
+                return r
+
+            setattr(OrderedSamples, method, wrapper)
+
+        wrap_os("add_initial_samples", "add_initial", has_batch=True)
+        wrap_os("add_samples", "add", has_batch=True)
+        wrap_os("update_log_likelihood_threshold", "threshold", has_t=True)
+        wrap_os("remove_samples", "remove", is_remove=True)
+        wrap_os("finalise", "finalise")
+
         orig_dump = sbase.safe_file_dump
 
         def safe_file_dump(obj, filename, *a, **k):
@@ -229,6 +284,47 @@ class INSObserver(StandardObserver):
             val = sc[name][-1] if sc[name] else float("inf")
             met.append(bool(float(val) <= float(t)))
         return met, (us.get("check", "any") == "any")
+
+    INS_STEPS = ("_compute_gradient", "determine_log_likelihood_threshold", "update_log_likelihood_threshold",
+                 "remove_samples", "add_new_proposal", "add_new_proposal_weight", "draw_n_samples",
+                 "add_and_update_points", "update_evidence", "compute_importance", "compute_stopping_criterion",
+                 "update_history", "checkpoint")
+
+    def arm_signal(self, spec):
+        """C13 (importance sampler): deliver a termination signal right before (or, for the steps that
+        call other steps, inside) the given step of the given iteration."""
+        import hashlib
+        import signal as _signal
+
+        from nessai.samplers.importancesampler import ImportanceNestedSampler as INS
+
+        obs = self
+        method, at_it, signum = spec["method"], int(spec["iteration"]), int(spec.get("signum", 15))
+        when = spec.get("when", "before")
+        orig = getattr(INS, method)
+        fired = {"done": False}
+
+        def file_digest(path):
+            try:
+                return hashlib.sha256(open(path, "rb").read()).hexdigest()
+            except OSError:
+                return None
+
+        def fire(ns):
+            fired["done"] = True
+            obs.em.emit("signal", method=method, when=when, signum=signum, ckpt_sha=file_digest(ns.resume_file),
+                        **obs.counts(ns))
+            _signal.getsignal(signum)(signum, None)
+
+        def wrapper(ns, *a, **k):
+            if not fired["done"] and int(ns.iteration) == at_it and when == "before":
+                fire(ns)
+            r = orig(ns, *a, **k)
+            if not fired["done"] and int(ns.iteration) == at_it and when == "after":
+                fire(ns)
+            return r
+
+        setattr(INS, method, wrapper)
 
     def done_event(self, fs, tag):
         self.em.emit(tag, **result_facts_ins(fs, self), **self.counts(fs.ns))
